@@ -9,6 +9,35 @@ let nat_of_int (n : int) : nat =
 let int_of_nat (n : nat) : int =
   let rec go acc = function O -> acc | S m -> go (acc + 1) m in go 0 n
 
+(* Z <-> decimal strings, through the extracted Z arithmetic (arbitrary size) *)
+let z_of_small (n : int) : z =
+  let rec pos k = if k = 1 then XH else if k land 1 = 0 then XO (pos (k lsr 1)) else XI (pos (k lsr 1)) in
+  if n = 0 then Z0 else if n > 0 then Zpos (pos n) else Zneg (pos (-n))
+let z10 = z_of_small 10
+let z_of_string (s : string) : z =
+  let neg = String.length s > 0 && s.[0] = '-' in
+  let acc = ref Z0 in
+  String.iteri (fun i c -> if not (i = 0 && (c = '-' || c = '+')) then
+    acc := Z.add (Z.mul !acc z10) (z_of_small (Char.code c - 48))) s;
+  if neg then Z.opp !acc else !acc
+let rec small_of_pos = function XH -> 1 | XO p -> 2 * small_of_pos p | XI p -> 2 * small_of_pos p + 1
+let small_of_z = function Z0 -> 0 | Zpos p -> small_of_pos p | Zneg p -> - (small_of_pos p)
+let string_of_z (x : z) : string =
+  match x with
+  | Z0 -> "0"
+  | _ ->
+    let neg = (match x with Zneg _ -> true | _ -> false) in
+    let a = ref (if neg then Z.opp x else x) in
+    let b = Buffer.create 32 in
+    let digits = ref [] in
+    while !a <> Z0 do
+      let (q, r) = Z.div_eucl !a z10 in
+      digits := small_of_z r :: !digits; a := q
+    done;
+    if neg then Buffer.add_char b '-';
+    List.iter (fun d -> Buffer.add_char b (Char.chr (48 + d))) !digits;
+    Buffer.contents b
+
 (* ---------- tokens ---------- *)
 type toks = { a : string array; mutable i : int }
 let toks_of_line (l : string) : toks =
@@ -50,9 +79,54 @@ let c17 (t : toks) (b : Buffer.t) =
   List.iter (fun v -> Buffer.add_string b " ; V";
               List.iter (fun x -> Buffer.add_char b ' '; pr_nat b x) v) vs
 
+(* ---------- C18: fp / primes / SpVecFP ---------- *)
+let next_z t = z_of_string (next t)
+let pr_z b x = Buffer.add_string b (string_of_z x)
+
+let c18_op t : fop =
+  match next t with
+  | "U" -> let d = next_nat t in let i = next_nat t in FUnit (d, i)
+  | "C" -> let d = next_nat t in let a = next_nat t in FCopy (d, a)
+  | "A" -> let d = next_nat t in let a = next_nat t in FAssign (d, a)
+  | "P" -> let d = next_nat t in let a = next_nat t in let b = next_nat t in FAdd (d, a, b)
+  | "Q" -> let d = next_nat t in let a = next_nat t in FAddAssign (d, a)
+  | "S" -> let d = next_nat t in let a = next_nat t in let c = next_z t in FScale (d, a, c)
+  | "R" -> let d = next_nat t in let c = next_z t in FScaleAssign (d, c)
+  | "X" -> let d = next_nat t in FClear d
+  | "D" -> let a = next_nat t in let b = next_nat t in FDot (a, b)
+  | "Z" -> let a = next_nat t in FSize a
+  | s -> failwith ("c18: bad op " ^ s)
+
+let c18 (t : toks) (b : Buffer.t) =
+  match next t with
+  | "G" | "GB" ->
+      let a = next_z t in let c = next_z t in
+      (match ext_gcd a c with
+       | GcdOk (g, x, y) -> Buffer.add_string b "G "; pr_z b g; Buffer.add_char b ' '; pr_z b x; Buffer.add_char b ' '; pr_z b y
+       | GcdOutOfFuel -> Buffer.add_string b "MODEL-ERROR out-of-fuel")
+  | "I" | "IB" ->
+      let a = next_z t in let p = next_z t in
+      (match mult_inverse a p with
+       | InvOk x -> Buffer.add_string b "I "; pr_z b x
+       | InvThrow -> Buffer.add_string b "THROW"
+       | InvOutOfFuel -> Buffer.add_string b "MODEL-ERROR out-of-fuel")
+  | "P" | "PB" ->
+      let p = next_z t in Buffer.add_string b (if is_prime p then "P 1" else "P 0")
+  | "V" | "VB" ->
+      let p = next_z t in let k = next_nat t in let _d = next_int t in
+      let ops = next_list t c18_op in
+      let (outs, vs) = frun_dump p k ops in
+      Buffer.add_string b "O";
+      List.iter (fun o -> Buffer.add_char b ' ';
+                  match o with FOutZ x -> pr_z b x | FOutNat n -> pr_nat b n) outs;
+      List.iter (fun v -> Buffer.add_string b " ; V";
+                  List.iter (fun (i, x) -> Buffer.add_char b ' '; pr_nat b i; Buffer.add_char b ':'; pr_z b x) v) vs
+  | s -> failwith ("c18: bad kind " ^ s)
+
 (* ---------- dispatch ---------- *)
 let components : (string * (toks -> Buffer.t -> unit)) list = [
   ("c17", c17);
+  ("c18", c18);
 ]
 
 let () =
